@@ -493,6 +493,7 @@ DevNeeds(x) ==
     [] x \in {"Float64Bounds", "IntBoundTruncated"} -> {"minimum", "maximum", "exclusiveMinimum", "exclusiveMaximum"}
     [] x \in {"BareDefUnvalidated", "NullableDefUnvalidated", "SameNameDefsCollapse"} -> {"ref"}
     [] x = "TagInvalidKeyUnbound" -> {"properties"}
+    [] x = "NullableObjectIsValueStruct" -> {"type"}
     [] x \in {"EnumNullDefault", "DefaultOnNullableScalar", "DefaultOnFormat", "DefaultOnWrappedEnum", "DefaultOnNestedArray",
               "DefaultOnObjectWithOptionalFields"} -> {"default"}
     [] x = "AllOfFirstWins" -> {"allOf"}
@@ -530,6 +531,15 @@ GoFieldName(k) == CASE k = "my_field" -> "MyField" [] k = "p" -> "P" [] k = "x" 
 \* punctuation) the tag is ignored and the key is matched against the Go field name instead: the property is
 \* never filled.  The names the unit families use (MC_C14S, family tagchars):
 TagBadNames == {"don't", "tab\tkey", "i,j", "e\\f", "g\nh", "a\"b"}
+\* the dump of a Go zero value: nil, 0, "", false, a struct of zero values
+RECURSIVE ZeroValue(_)
+ZeroValue(x) == CASE x.t = "null" -> TRUE
+                  [] x.t = "num" -> x.h = 0
+                  [] x.t = "str" -> x.s = <<>>
+                  [] x.t = "bool" -> ~x.b
+                  [] x.t = "obj" -> \A i \in DOMAIN x.o : ZeroValue(x.o[i].v)
+                  [] x.t = "arr" -> x.a = <<>>
+                  [] OTHER -> FALSE
 RECURSIVE Decoded(_, _, _, _, _)
 StripDefaults(s) ==
   IF Has(s, "properties")
@@ -545,7 +555,14 @@ Decoded(env, s, d, v, D) ==
            ELSE IF "DeclaredArrayElemUnvalidated" \in D /\ Main(t) = "array" /\ Has(t, "items")
            THEN Decoded(env, [t EXCEPT !.items = StripDefaults(@)], d, v, D)
            ELSE Decoded(env, t, d, v, D))
-  ELSE IF d.t = "null" THEN TRUE
+  \* null where the schema lists null as a type: the destination stays nil (C03: "yields an absent/nil value")
+  \* deviation "NullableObjectIsValueStruct": a nullable OBJECT is a pointer only as an optional property; as a
+  \* required property, as array items and as map values it is the struct itself, and null leaves its zero value,
+  \* which marshals as {} (pinned by golden validation/requiredFields/requiredNullable)
+  ELSE IF d.t = "null" THEN
+       (Has(s, "type") /\ Nullable(s) /\ ~Has(s, "default") /\ ~Has(s, "enum")) =>
+          \/ v.t = "null"
+          \/ "NullableObjectIsValueStruct" \in D /\ Main(s) = "object" /\ ZeroValue(v)
   ELSE IF Has(s, "enum") THEN JEq(v, d)
   ELSE IF Has(s, "allOf") \/ Has(s, "anyOf") THEN TRUE           \* judged by C11
   ELSE IF IsStruct(s) THEN
@@ -570,6 +587,8 @@ Decoded(env, s, d, v, D) ==
                           /\ Has(ps, "additionalProperties") /\ ps.additionalProperties.k = "s"
                        THEN ObjHas(v, k) /\ ObjVal(v, k).t = "obj" /\ ObjVal(v, k).o = <<>>
                        ELSE ObjHas(v, k) /\ JEq(ObjVal(v, k), ps.default)
+                \* an explicit null: judged by the rule for null above (through references too)
+                ELSE IF ObjHas(d, k) THEN Decoded(env, ps, ObjVal(d, k), IF ObjHas(v, k) THEN ObjVal(v, k) ELSE JNull, D)
                 ELSE TRUE
        /\ CollectsAddl(s) =>
              \* deviation "AddlKeyEqualsFieldNameDropped": the generated code deletes st.Field(i).Name from the
